@@ -935,7 +935,7 @@ func (ss *NumericStats) Merge(other *NumericStats) {
 			ss.Sum.FloatVal = float64(ss.Sum.IntgrVal) + other.Sum.FloatVal
 			ss.Sum.Ntype = sutils.SS_DT_FLOAT
 		} else {
-			ss.Sum.IntgrVal = ss.Sum.IntgrVal + other.Sum.IntgrVal
+			ss.Sum.AddToIntSum(other.Sum.IntgrVal)
 		}
 	}
 	ss.Sumsq = ss.Sumsq + other.Sumsq
